@@ -94,6 +94,29 @@ theorem keeps_exec : ∀ fuel : Nat,
 
 theorem keeps_runUnit (u : UnitId) (sc : Script) : Keeps (runUnit u sc) := (keeps_exec FUEL).2 0 u sc
 
+/-- looking a fixture up — which EVALUATES a per-thread fixture at its first use by the worker (user code: the
+    fixture's setup script) — leaves the abort flags alone, whatever that setup raises -/
+theorem keeps_getFixtureResult (P : Proj) (svs : List SuiteView) (w : Nat) (k : InstKey) (suite : Path) (name : String) :
+    Keeps (getFixtureResult P svs w k suite name) := by
+  unfold getFixtureResult
+  have hr := keeps_runUnit
+  keeps
+  all_goals first
+    | exact hr _ _
+    | (apply keeps_modify; intro _; exact ⟨rfl, rfl⟩)
+
+theorem keeps_lookupAll (P : Proj) (svs : List SuiteView) (w : Nat) (k : InstKey) (suite : Path) :
+    ∀ names : List String, Keeps (lookupAll P svs w k suite names) := by
+  intro names
+  induction names with
+  | nil => unfold lookupAll; keeps
+  | cons n rest ih =>
+    unfold lookupAll
+    refine keeps_bind (keeps_getFixtureResult P svs w k suite n) (fun r => ?_)
+    cases r with
+    | none => exact ih
+    | some e => keeps
+
 /-- what `handle_exception` does to the flags, by kind -/
 theorem handleException_flags (k : ExcKind) (suite : Option Path) (ws : Bool) (ts : TS) :
     (exec (handleException k suite ws) ts).2.abortAll = (ts.abortAll || k == .abortAll) ∧
